@@ -63,6 +63,15 @@ def run(prop, tier, seed, replay=None):
             raise vf.ToolError("MC_Datum emitted no scenarios (vacuous run)")
         nrand, depth = (250, 3) if tier == "quick" else (4000, 4)
         scns += gen_random(work, seed, nrand, depth)
+        # decimals whose two's-complement form is narrower than the fixed they are stored in, negative and positive,
+        # and the extremes of the width (sign extension, not zero padding)
+        for size in (1, 4, 9):
+            sch = {"k": "decimal", "base": "fixed", "name": f"ns.Dec{size}", "size": size, "precision": 2 if size == 1 else 9, "scale": 1}
+            for b in ([255], [128], [127], [1], [0], [255, 133], [128, 0], [0, 255]):
+                if len(b) <= size:
+                    scns.append(json.dumps({"s": sch, "v": {"t": "decimal", "b": b}, "layouts": []}))
+        for b in ([255], [255, 133], [0, 255], []):
+            scns.append(json.dumps({"s": {"k": "decimal", "base": "bytes", "precision": 9, "scale": 1}, "v": {"t": "decimal", "b": b}, "layouts": []}))
         rep.cov["exhaustive"] = False
     scn_file = work / "all.scn.ndjson"
     scn_file.write_text("\n".join(scns) + "\n")
